@@ -124,7 +124,7 @@ impl Compiler {
     //@  loop 0 invariant __k0 <= self.locals.len() <= 256
     //@  loop 0 invariant forall|j: int| __k0 <= j < self.locals.len() ==> (#[trigger] self.locals[j]).name@ != name.source@
     //@  loop 0 decreases __k0
-    //@  before "return Err(CompilerError::ReadVarInInitialiser);" proof { assert(self.is_last_match(i as int, name.source@)); }
+    //@  before_stmt "return Err(CompilerError::ReadVarInInitialiser)" proof { assert(self.is_last_match(i as int, name.source@)); }
     //@end
 
     //@fn file=yarel/src/compiler.rs path=Compiler::add_upvalue ret=r props=C04,C06
@@ -553,8 +553,8 @@ impl Parser {
     //@  loop 0 invariant *self == *old(self), locs == self.cur().locals@, __k0 <= locs.len(), self.pwf(), all_initialised(locs)
     //@  loop 0 ensures scope_end_code(locs, scope_depth) == opcodes@, drop_count(locs, scope_depth) == opcodes@.len()
     //@  loop 0 decreases __k0
-    //@  before "while __k0 > 0" proof { assert(locs.subrange(0, locs.len() as int) =~= locs); assert(opcodes@ + scope_end_code(locs, scope_depth) =~= scope_end_code(locs, scope_depth)); }
-    //@  after "__k0 -= 1;" proof { assert(locs.subrange(0, __k0 as int + 1).drop_last() =~= locs.subrange(0, __k0 as int)); assert(locs.subrange(0, __k0 as int + 1).last() == locs[__k0 as int]); }
+    //@  before_stmt "while __k0 > 0" proof { assert(locs.subrange(0, locs.len() as int) =~= locs); assert(opcodes@ + scope_end_code(locs, scope_depth) =~= scope_end_code(locs, scope_depth)); }
+    //@  after_stmt "__k0 -= 1" proof { assert(locs.subrange(0, __k0 as int + 1).drop_last() =~= locs.subrange(0, __k0 as int)); assert(locs.subrange(0, __k0 as int + 1).last() == locs[__k0 as int]); }
     //@  at loop0.end proof { assert(seq![close_op(locs[__k0 as int])] + scope_end_code(locs.subrange(0, __k0 as int), scope_depth) == scope_end_code(locs.subrange(0, __k0 as int + 1), scope_depth)); }
     //@  loop 1 iter it
     //@  loop 1 invariant self.pwf(), self.compilers.len() == old(self).compilers.len()
@@ -564,7 +564,7 @@ impl Parser {
     //@  loop 1 invariant same_compiler_but_code_locals(old(self).cur(), self.cur()) && self.errors == old(self).errors && self.pushed == old(self).pushed
     //@  loop 1 invariant forall|i: int| 0 <= i < old(self).compilers.len() - 1 ==> self.compilers[i] == old(self).compilers[i]
     //@  loop 1 invariant opcodes@.len() == drop_count(locs, scope_depth) <= locs.len(), locs == old(self).cur().locals@
-    //@  before "for __r0 in" proof { lemma_drop_count_le(locs, scope_depth); }
+    //@  before_stmt "for __r0 in" proof { lemma_drop_count_le(locs, scope_depth); }
     //@end
     //@fn file=yarel/src/compiler.rs path=Parser::end_scope props=C06
     //@  requires old(self).pwf(), all_initialised(old(self).cur().locals@), old(self).cur().scope_depth > 0
@@ -594,7 +594,7 @@ impl Parser {
     //@  ensures old(self).cur().loop_stack@.len() == 0 ==> final(self).has_error()
     //@  ensures old(self).cur().loop_stack@.len() > 0 ==> ({ let pops = scope_end_code(old(self).cur().locals@, old(self).cur().loop_stack@.last().1); let n = old(self).code().len() + pops.len(); final(self).code().len() == n + 3 && final(self).code().subrange(0, n as int) == old(self).code() + pops && final(self).code()[n as int] == opcode_byte(OpCode::Loop) && (final(self).has_error() || n + 3 - u16_of(final(self).code()[n as int + 1], final(self).code()[n as int + 2]) == old(self).cur().loop_stack@.last().0) })
     //@  ensures final(self).cur().locals@ == old(self).cur().locals@
-    //@  before "self.emit_loop(jump_target);" proof { lemma_drop_count_le(old(self).cur().locals@, scope_depth); }
+    //@  before_stmt "self.emit_loop(" proof { lemma_drop_count_le(old(self).cur().locals@, scope_depth); }
     //@end
     // ---------------------------------------------------------------- C06: declaration and resolution
     //@fn file=yarel/src/compiler.rs path=Parser::resolve_local ret=r props=C06,C04
@@ -620,8 +620,8 @@ impl Parser {
     //@  loop 0 invariant_except_break !self.has_error() ==> !same_scope_duplicate(locs, sd, nm) || same_scope_duplicate(locs.subrange(0, __k0 as int), sd, nm)
     //@  loop 0 ensures !self.has_error() ==> !same_scope_duplicate(locs, sd, nm)
     //@  loop 0 decreases __k0
-    //@  after "__k0 -= 1;" proof { assert(locs.subrange(0, __k0 as int + 1).drop_last() =~= locs.subrange(0, __k0 as int)); assert(locs.subrange(0, __k0 as int + 1).last() == locs[__k0 as int]); }
-    //@  before "while __k0 > 0" proof { assert(locs.subrange(0, locs.len() as int) =~= locs); }
+    //@  after_stmt "__k0 -= 1" proof { assert(locs.subrange(0, __k0 as int + 1).drop_last() =~= locs.subrange(0, __k0 as int)); assert(locs.subrange(0, __k0 as int + 1).last() == locs[__k0 as int]); }
+    //@  before_stmt "while __k0 > 0" proof { assert(locs.subrange(0, locs.len() as int) =~= locs); }
     //@end
 }
 
